@@ -43,3 +43,102 @@ def run_rule(name: str, repo) -> RuleResult:
             "confirmed by hand: an anchor vanished (vacuous pass refused)"
         )
     return res
+
+
+# Pairs of rule sets that decide the same obligations by different means (a shape-matched / structural reading and an
+# interpretation of the same code). An ANALYSIS-ERROR ("cannot judge") of rules on one side is tolerated - reported as a
+# note, not as exit 2 - when every rule of the other side completed: the obligation was decided. Violations always stand.
+COVER = [
+    ({"LICM-SOUND"}, {"PASS-EQUIV"}),
+    ({"EXPR-LAYOUT"}, {"GEN-EXPR"}),
+    ({"BOUND-SAMESRC"}, {"GEN-BLOCKS", "GEN-DEFS", "GEN-EXPR"}),
+    ({"IDX-SPACE", "PERM-CONSISTENT", "FORM-KERNEL-ALIGN"}, {"GEN-FORM"}),
+]
+
+
+def covering_sets(name: str):
+    out = []
+    for a, b in COVER:
+        if name in a:
+            out.append(b)
+        if name in b:
+            out.append(a)
+    return out
+
+
+def apply_cover(errors: list[str], ok_names: set[str], repo) -> tuple[list[str], list[str]]:
+    """Split `errors` ("RULE: message") into (remaining, tolerated) according to COVER."""
+    err_names = {e.split(":", 1)[0] for e in errors}
+    cache_ok: dict[str, bool] = {}
+
+    def completes(rn: str) -> bool:
+        if rn in ok_names:
+            return True
+        if rn in err_names:
+            return False
+        if rn not in cache_ok:
+            try:
+                run_rule(rn, repo)
+                cache_ok[rn] = True
+            except Exception:
+                cache_ok[rn] = False
+        return cache_ok[rn]
+
+    remaining, tolerated = [], []
+    for e in errors:
+        rn = e.split(":", 1)[0]
+        sets = covering_sets(rn)
+        if sets and any(all(completes(y) for y in ys) for ys in sets):
+            tolerated.append(e)
+        else:
+            remaining.append(e)
+    return remaining, tolerated
+
+
+# Structural rules whose findings on the listed obligations are *second opinions*: the covering rule decides the same
+# obligation semantically (by interpreting the code on samples). When every covering rule completed with no finding, such
+# a structural finding is reported as a note, not as a violation - a restructured but equivalent implementation (a loop
+# instead of three comprehensions, a comprehension instead of a loop) must not raise an alarm. Obligations the covering
+# rule does not decide (key filter false) keep their verdict.
+DEMOTE = {
+    "LICM-SOUND": ({"PASS-EQUIV"}, lambda key: True),
+    "PERM-CONSISTENT": ({"GEN-FORM"}, lambda key: True),
+    "IDX-SPACE": ({"GEN-FORM"}, lambda key: True),
+    "FORM-KERNEL-ALIGN": ({"GEN-FORM"}, lambda key: True),
+    "EXPR-LAYOUT": ({"GEN-EXPR"}, lambda key: any(t in key for t in (":multi-index-count", ":index-roles:", ":factor-of-component"))),
+}
+
+
+def apply_demote(results: list, repo) -> list[str]:
+    """Move covered structural findings of `results` into notes; returns the list of demoted descriptions."""
+    by_name = {r.rule: r for r in results}
+    cache: dict[str, bool] = {}
+
+    def clean(rn: str) -> bool:
+        if rn in by_name:
+            return not by_name[rn].findings
+        if rn not in cache:
+            try:
+                cache[rn] = not run_rule(rn, repo).findings
+            except Exception:
+                cache[rn] = False
+        return cache[rn]
+
+    demoted = []
+    for r in results:
+        spec = DEMOTE.get(r.rule)
+        if not spec or not r.findings:
+            continue
+        cover, pred = spec
+        if not all(clean(c) for c in cover):
+            continue
+        keep = []
+        for f in r.findings:
+            if pred(f.key):
+                d = f"{r.rule}:{f.key}: {f.msg}"
+                demoted.append(d)
+                r.notes.append(f"structural second opinion (not a verdict; {', '.join(sorted(cover))} decided this obligation and found nothing): {f.msg}")
+            else:
+                keep.append(f)
+        r.findings[:] = keep
+    return demoted
